@@ -82,8 +82,8 @@ macro "post_step" : tactic => `(tactic| first
   | (apply Post.pure; keeps_solve)
   | (apply Post.ok; keeps_solve))
 
-theorem runIntDir_keeps (base : Nat) (vs : List PVal) (off : Nat) (colon atm : Bool) (st : St) :
-    Post (runIntDir base vs off colon atm st) (fun r => Keeps st r) := by
+theorem runIntDir_keeps (T : EnglishTables) (base : Nat) (vs : List PVal) (off : Nat) (colon atm : Bool) (st : St) :
+    Post (runIntDir T base vs off colon atm st) (fun r => Keeps st r) := by
   unfold runIntDir
   repeat post_step
 
@@ -99,7 +99,7 @@ theorem runSimple_keeps (T : EnglishTables) (k : Kind) (vs : List PVal) (colon a
         refine Post.bind (next_keeps st0) ?_
         intro a ha
         exact Post.pure (Keeps.trans h0 ha)
-  all_goals (simp only [runSimple, repeatDir] <;> (try exact runIntDir_keeps _ _ _ _ _ _) <;> repeat post_step)
+  all_goals (simp only [runSimple, repeatDir] <;> (try exact runIntDir_keeps _ _ _ _ _ _ _) <;> repeat post_step)
 
 /-- the evaluators at fuel f keep the argument list and a cursor that is inside -/
 structure KeepsAt (T : EnglishTables) (f : Nat) : Prop where
